@@ -31,6 +31,7 @@ func runC08(p *core.Prog, r *core.Report) {
 	c08R5(p, r)
 	c07R5(p, r, "C08.R7")
 	c08R8(p, r, "C08.R8")
+	c08R9(p, r, "C08.R9")
 }
 
 // c08R8: an index entry is marked because the index lists it, not because it could be loaded. Before
@@ -1034,5 +1035,79 @@ func c08R6(p *core.Prog, r *core.Report) {
 	}
 	if n == 0 {
 		r.Undecided(rule, p.FuncName(closeFn), "sweep removal", p.Pos(closeFn.Pos()), "no file removal found in Close")
+	}
+}
+
+// c08R9: the mark phase carries on when an entry cannot be loaded (a deleted manifest, a sparse
+// copy), which turns every load failure into "this manifest has no children". That is only safe
+// while loading fails for reasons found in the layout itself. A loader that also fails because the
+// caller's context has ended (the commands close the layout with the context their signal handler
+// has just cancelled) makes the walk mark nothing below the index and the sweep delete the children
+// of every tag.
+func c08R9(p *core.Prog, r *core.Report, rule string) {
+	r.Rule(rule, "a load failure the mark phase ignores says something about the layout: while the walk continues past an entry it could not load, nothing the loader calls (three levels of module calls) consults the context (Err, Done): a cancelled context must not make every manifest look like a leaf", 1)
+	walkers, first, _ := gcMarkWalkers(p)
+	if first == nil {
+		r.MissingAnchor(rule, "mark phase of the layout GC")
+		return
+	}
+	errT := types.Universe.Lookup("error").Type()
+	type site struct {
+		fn   *ssa.Function
+		call *ssa.Call
+		g    *ssa.Function
+	}
+	var ignored []site
+	for _, f := range sortedFuncs(walkers) {
+		core.Calls(f, func(c ssa.CallInstruction) {
+			call, ok := c.(*ssa.Call)
+			g := core.CalleeFn(c)
+			if !ok || g == nil || walkers[g] && g == f {
+				return
+			}
+			pk := core.FuncPkg(g)
+			if pk == nil || pk.Path() != modPath(ocidirRel) {
+				return
+			}
+			res := g.Signature.Results()
+			if res.Len() < 2 || !types.Identical(res.At(res.Len()-1).Type(), errT) {
+				return
+			}
+			for _, e := range errEdgesOf(f, call) {
+				for in := range (core.Reach{}).FromEdge(e[0], e[1]) {
+					if ret, isRet := in.(*ssa.Return); isRet && !failureReturn(f, ret) {
+						ignored = append(ignored, site{f, call, g})
+						return
+					}
+				}
+			}
+		})
+	}
+	if len(ignored) == 0 {
+		r.Held(rule, p.FuncName(first), "load failures end the walk", p.Pos(first.Pos()), "no loader error is passed over in the mark phase")
+		return
+	}
+	isCtx := func(t types.Type) bool { return core.IsNamed(t, "context", "Context") }
+	lab := labeler{}
+	for _, s := range ignored {
+		bad := ""
+		n := 0
+		for _, h := range sortedFuncs(unitFuncs(s.g, 3, nil)) {
+			if !p.InModule(h) {
+				continue
+			}
+			n++
+			core.Calls(h, func(c ssa.CallInstruction) {
+				cc := c.Common()
+				if cc.IsInvoke() && isCtx(cc.Value.Type()) && (cc.Method.Name() == "Err" || cc.Method.Name() == "Done") && bad == "" {
+					bad = p.FuncName(h) + " at " + p.Pos(c.Pos())
+				}
+				if f := core.Callee(c); f != nil && f.Pkg() != nil && f.Pkg().Path() == "context" && f.Name() == "Cause" && bad == "" {
+					bad = p.FuncName(h) + " at " + p.Pos(c.Pos())
+				}
+			})
+		}
+		r.Check(bad == "", rule, p.FuncName(s.fn), lab.next("ignored load failure of "+s.g.Name()), p.Pos(s.call.Pos()),
+			fmt.Sprintf("the walk continues when %s fails, and %s fails when the context has ended (%s): closing a layout with a cancelled context sweeps the children of every tag (%d functions examined)", s.g.Name(), s.g.Name(), bad, n))
 	}
 }
